@@ -335,6 +335,7 @@ func (r *Result) finish(verifDir string, findings []Finding) int {
 			"sensitivity_mutations": r.Mutations,
 			"insensitive":           r.Insens,
 			"notes":                 r.Notes,
+			"rules":                 r.Rules,
 			"normalised_view":       r.Normalised,
 			"expanded_helpers":      r.Expanded,
 			"checker_cmd":           "bin/tvc -property " + r.Prop + " -tier " + r.Tier,
